@@ -134,7 +134,7 @@ def run(ctx):
     warnings.filterwarnings("ignore")
     from quantecon.markov import DiscreteDP
 
-    n_inst = 300 if thorough else 64
+    n_inst = 300 if thorough else 56
     insts = [
         Inst(2, 2, [[Fraction(5), Fraction(10)], [Fraction(-1), None]],
              [[[Fraction(1, 2), Fraction(1, 2)], [Fraction(0), Fraction(1)]], [[Fraction(0), Fraction(1)], [Fraction(1, 2), Fraction(1, 2)]]],
@@ -143,6 +143,8 @@ def run(ctx):
              [[[Fraction(1), Fraction(0)]] * 3, [[Fraction(0), Fraction(1)]] * 3], Fraction(3, 4), True, "corner-all-ties"),
         Inst(1, 2, [[Fraction(1), Fraction(2)]], [[[Fraction(1)], [Fraction(1)]]], Fraction(0), True, "corner-beta0"),
     ]
+    insts.append(gen_inst(rng, n=3, m=2, beta=Fraction(1023, 1024)))       # beta next to 1
+    insts.append(gen_inst(rng, n=1, m=1, beta=Fraction(1, 2)))
     while len(insts) < n_inst:
         insts.append(gen_inst(rng, nmax=6 if thorough else 5, mmax=4))
 
@@ -151,6 +153,131 @@ def run(ctx):
     viq_cases, viq_meta = [], []
     mpi_cases, mpi_meta = [], []
     lp_cases, lp_meta = [], []
+
+    def same_res(a, b, exact=True):
+        """exact: identical v, sigma, num_iter.  Otherwise (another memory layout / storage format / dtype of the same data, where
+        BLAS may sum in another order): v within 1e-9; sigma and num_iter identical when v is bitwise identical, else num_iter
+        within 1 (borderline stopping test) and sigma not compared (exact ties may be broken differently)"""
+        if np.asarray(a.v).dtype != np.float64:
+            return False
+        if exact or np.array_equal(a.v, b.v):
+            return a.num_iter == b.num_iter and np.array_equal(a.sigma, b.sigma) and np.array_equal(a.v, b.v)
+        return abs(a.num_iter - b.num_iter) <= 1 and np.allclose(a.v, b.v, rtol=1e-9, atol=1e-9)
+
+    def harden_solve(inst, form, ddp, inp0, kind, fterm, check_opt):
+        sparse = "sparse" in kind
+        methods = ["vi", "pi", "mpi"] + ([] if sparse else ["lp"])
+        snap = c09.snapshot_args(form.args)
+        vint = [rng.randrange(-5, 6) for _ in range(inst.n)]
+        vf = np.array(vint, dtype=float)
+        calls = [("vi", {}), ("pi", {}), ("mpi", {"k": 0}), ("vi", {"epsilon": 0.0, "max_iter": 30}), ("mpi", {"epsilon": 0.0, "max_iter": 12, "k": 2}),
+                 ("pi", {"max_iter": 1}), ("vi", {"max_iter": 1}), ("mpi", {"max_iter": 1, "k": 1}), ("mpi", {"k": 5, "epsilon": 1e-1}),
+                 ("vi", {"v_init": vf.copy(), "epsilon": 1e-2}), ("pi", {"v_init": vf.copy()})]
+        if not sparse:
+            calls += [("lp", {}), ("lp", {"max_iter": 1}), ("lp", {"v_init": vf.copy()})]
+        rng.shuffle(calls)
+        if not thorough:
+            calls = calls[:7]
+        # 2. ONE object reused for every call, each compared with a FRESH object; 3. results must not alias
+        results = []
+        for mth, kw in calls:
+            kw1 = {k_: (v_.copy() if isinstance(v_, np.ndarray) else v_) for k_, v_ in kw.items()}
+            res = ddp.solve(method=mth, **kw1)
+            fresh = DiscreteDP(*form.args).solve(method=mth, **kw)
+            if not same_res(res, fresh):
+                ctx.fail("state", "solve on a reused DiscreteDP object differs from the same call on a fresh object",
+                         dict(inp0, method=mth, kwargs={k_: jsonable(v_) for k_, v_ in kw.items()}),
+                         {"v": res.v, "sigma": res.sigma, "num_iter": res.num_iter}, {"v": fresh.v, "sigma": fresh.sigma, "num_iter": fresh.num_iter})
+            if "v_init" in kw1 and not np.array_equal(kw1["v_init"], vf):
+                ctx.fail("argument_mutated", "solve modified v_init", dict(inp0, method=mth), None, None)
+            if any(np.shares_memory(res.v, r_.v) or np.shares_memory(res.sigma, r_.sigma) for r_ in results) or \
+                    ("v_init" in kw1 and np.shares_memory(res.v, kw1["v_init"])):
+                ctx.fail("aliasing", "results of different solve calls (or v_init) share memory", dict(inp0, method=mth), None, None)
+            results.append(res)
+            cap = kw.get("max_iter", ddp.max_iter * inst.n if mth == "lp" else ddp.max_iter)
+            eps = kw.get("epsilon", ddp.epsilon)
+            # 4. falsy-but-valid values must be honoured: epsilon = 0.0 never stops before the cap (beta > 0); max_iter = 1 is one step
+            if eps == 0.0 and inst.beta > 0 and res.num_iter != cap:
+                ctx.fail("falsy_argument", "epsilon=0.0 was not honoured (stopped before max_iter)", dict(inp0, method=mth, max_iter=cap), res.num_iter, cap)
+            if kw.get("max_iter") == 1 and mth != "lp" and res.num_iter != 1:
+                ctx.fail("falsy_argument", "max_iter=1 was not honoured", dict(inp0, method=mth), res.num_iter, 1)
+            ctx.count("seq:reused object %s %s" % (mth, ",".join(sorted("%s=%s" % (k_, "array" if isinstance(v_, np.ndarray) else v_) for k_, v_ in kw.items())) or "defaults"))
+            # the same calls also go to the model comparison
+            vi_ = vint if "v_init" in kw else None
+            imp = {"v": res.v, "sigma": res.sigma, "num_iter": res.num_iter}
+            if mth == "vi":
+                vi_cases.append(tup(fterm, form.coq, fopt(vi_), fl(eps), natlit(cap), qlist([frac(x) for x in res.v]), natlist([int(x) for x in res.sigma]), natlit(res.num_iter)))
+                vi_meta.append(dict(inp0, method="vi", v_init=vi_, epsilon=eps, max_iter=cap, impl=imp))
+            elif mth == "mpi":
+                kk = kw.get("k", 20)
+                mpi_cases.append(tup(fterm, form.coq, fopt(vi_), fl(eps), natlit(cap), natlit(kk), qlist([frac(x) for x in res.v]), natlist([int(x) for x in res.sigma]), natlit(res.num_iter)))
+                mpi_meta.append(dict(inp0, method="mpi", v_init=vi_, epsilon=eps, max_iter=cap, k=kk, impl=imp))
+            elif mth == "pi":
+                pi_cases.append(tup(form.coq, qopt(None if vi_ is None else [Fraction(x) for x in vi_]), natlit(cap), qlist([frac(x) for x in res.v]), natlist([int(x) for x in res.sigma]), natlit(res.num_iter)))
+                pi_meta.append(dict(inp0, method="pi", v_init=vi_, max_iter=cap, impl=imp))
+            else:
+                lp_cases.append(tup(fterm, form.coq, qopt(None if vi_ is None else [Fraction(x) for x in vi_]), fopt(vi_), natlit(cap), flist([float(x) for x in res.v]), natlist([int(x) for x in res.sigma]), natlit(res.num_iter)))
+                lp_meta.append(dict(inp0, method="lp", v_init=vi_, max_iter=cap, impl=imp))
+        if not c09.args_unchanged(form.args, snap):
+            ctx.fail("argument_mutated", "solve modified a constructor argument", inp0, None, None)
+        # 4. optional arguments omitted vs supplied explicitly with their default values; NumPy scalar dress of epsilon / max_iter / k
+        for mth in methods:
+            base = ddp.solve(method=mth)
+            expl = {"vi": {"epsilon": ddp.epsilon, "max_iter": ddp.max_iter, "v_init": None}, "pi": {"max_iter": ddp.max_iter, "v_init": None},
+                    "mpi": {"epsilon": ddp.epsilon, "max_iter": ddp.max_iter, "k": 20, "v_init": None},
+                    "lp": {"max_iter": ddp.max_iter * inst.n, "v_init": None}}[mth]
+            if not same_res(ddp.solve(method=mth, **expl), base):
+                ctx.fail("optional_argument", "solve(%s) with the defaults supplied explicitly differs from the call without them" % mth, dict(inp0, method=mth), None, None)
+            dress = {k_: (np.float64(v_) if isinstance(v_, float) else rng.choice([np.int64, np.int32, np.intp])(v_) if isinstance(v_, int) else v_) for k_, v_ in expl.items()}
+            if mth == "mpi":
+                dress["k"] = np.uint8(20)
+            if not same_res(ddp.solve(method=mth, **dress), base):
+                ctx.fail("dress", "solve(%s) depends on the NumPy/Python type of epsilon / max_iter / k" % mth, dict(inp0, method=mth), None, None)
+            ctx.count("optional:explicit defaults " + mth); ctx.count("dress:numpy scalars " + mth)
+        # 2. attribute re-assignment between calls
+        d2 = DiscreteDP(*form.args)
+        d2.solve(method="pi")
+        d2.epsilon = 1e-2; d2.max_iter = 7
+        for mth in methods:
+            kw = {"max_iter": 7 * inst.n} if mth == "lp" else ({"max_iter": 7} if mth == "pi" else {"epsilon": 1e-2, "max_iter": 7})
+            if not same_res(d2.solve(method=mth), DiscreteDP(*form.args).solve(method=mth, **kw)):
+                ctx.fail("state", "re-assigned .epsilon / .max_iter are not used by solve(%s)" % mth, dict(inp0, method=mth), None, None)
+        b2 = 0.25 if inst.beta != Fraction(1, 4) else 0.75
+        d2.beta = b2
+        f2 = DiscreteDP(form.args[0], form.args[1], b2, *form.args[3:]); f2.epsilon = 1e-2; f2.max_iter = 7
+        for mth in methods:
+            if not same_res(d2.solve(method=mth), f2.solve(method=mth)):
+                ctx.fail("state", "after re-assigning .beta solve(%s) differs from a fresh object with that beta" % mth, dict(inp0, method=mth, beta=b2), None, None)
+        ctx.count("seq:reassign epsilon/max_iter"); ctx.count("seq:reassign beta")
+        # 1. dress / dtype / layout of the constructor arguments
+        variants = [v_ for v_ in c09.dressings(form, inst, rng) if not (v_[0].startswith("Q") and "float32" in v_[0])]
+        if not thorough:
+            variants = rng.sample(variants, min(3, len(variants)))
+        # vi: the iterates do not depend on tie-breaking (tight comparison); pi / lp: converge to v*; mpi: the partial-evaluation
+        # trajectory may legitimately differ after a float tie, so only eps-level agreement of two stopped runs is required
+        def dress_solve(dd, mth):
+            if mth == "vi":
+                return dd.solve(method="vi", v_init=np.array(vint, dtype=float), max_iter=25)
+            return dd.solve(method=mth, v_init=np.array(vint, dtype=float))
+        ref = {mth: dress_solve(ddp, mth) for mth in methods}
+        for label, args in variants:
+            asnap = c09.snapshot_args(args)
+            d3 = DiscreteDP(*args)
+            for mth in methods:
+                got = dress_solve(d3, mth)
+                if mth == "mpi":
+                    okd = np.asarray(got.v).dtype == np.float64 and (np.abs(got.v - ref[mth].v).max() <= ddp.epsilon or
+                                                                    max(got.num_iter, ref[mth].num_iter) >= ddp.max_iter)
+                elif mth == "vi":
+                    okd = same_res(got, ref[mth], exact=False)
+                else:
+                    okd = np.asarray(got.v).dtype == np.float64 and np.allclose(got.v, ref[mth].v, rtol=1e-9, atol=1e-9)
+                if not okd:
+                    ctx.fail("dress", "solve(%s) depends on the type/dtype/layout in which R, Q, beta, s_indices, a_indices are passed" % mth,
+                             dict(inp0, method=mth, dress=label), {"v": got.v, "num_iter": got.num_iter}, {"v": ref[mth].v, "num_iter": ref[mth].num_iter})
+            if not c09.args_unchanged(args, asnap):
+                ctx.fail("argument_mutated", "DiscreteDP / solve modified a constructor argument", dict(inp0, dress=label), None, None)
+            ctx.count("dress:" + label)
 
     for ii, inst in enumerate(insts):
         vstar = oracle_opt(inst)
@@ -260,6 +387,10 @@ def run(ctx):
                                      dict(inp0, method=mth, v_init=vint, v_form=fname),
                                      {"v": res.v, "sigma": res.sigma, "num_iter": res.num_iter}, {"v": ref.v, "sigma": ref.sigma, "num_iter": ref.num_iter})
                         ctx.count("argument form v_init:" + fname)
+
+                # ---------------- hardening audit (dress/dtype, state and sequences, non-mutation, optional/falsy arguments)
+                if thorough or ii % 6 == 0:
+                    harden_solve(inst, form, ddp, inp0, kind, fterm, check_opt)
 
                 # ---------------- value iteration (PrimFloat instance of the model; exact Q instance for short runs)
                 for rep in range(2 if (thorough or ii % 2 == 0) else 1):
